@@ -256,6 +256,11 @@ class RpcClient:
                 f"Received unexpected PDU response of {type(pdu_resp).__name__} when expecting {resp_type.__name__}"
             )
 
+        if self._auth and encrypt_offsets and not pdu_header.auth_len:
+            # The request was sealed by the security context, a response
+            # without a security trailer was not protected by the peer.
+            raise ValueError("Received response without a security trailer for a request that was sealed")
+
         return pdu_resp
 
 
